@@ -17,6 +17,7 @@ func init() {
 			"label and line regexps with the same text stay different matchers; the engine evaluates every written filter stage",
 			"PV-PURE LabelSet read accessors do not write the label map; groupEntries keeps every entry (no de-duplication), deterministic",
 			"LP-ERRPATH: every stage that flags __error__ (typed label filters, extractors, line_format) returns the unchanged line, kept, on its failing paths",
+			"CH-MAP builder tables incl. and/or predicate; templates are compiled per stage instance",
 		},
 		NotDecided: []string{"strings.Contains(s, \"\") being true (library semantics)", "regexp engine semantics"},
 		Rules: func(r *Run) {
@@ -42,6 +43,9 @@ func init() {
 			ruleGroupEntries(r)
 			ruleMO(r, 10, "LabelSet", "groupEntries", "Engine).Eval")
 			ruleErrorPathKeepsLine(r, []string{"DurationLabelFilter", "BytesLabelFilter", "NumberLabelFilter", "IPLabelFilter", "JSONExtractor", "LogfmtExtractor", "UnpackExtractor", "LineFormat"}) // a filter that cannot read a value keeps the record (flagged), whatever the comparison
+			ruleCHBuilders(r)
+			ruleTemplatePerStage(r)
+			ruleTemplateBinding(r)
 		},
 	})
 }
